@@ -62,6 +62,25 @@ func inputOffsetOf(r anyReader) int64 {
 	return f.Int()
 }
 
+// metaReaderCounters reads InputOffset, OutputOffset, NumBlocks and FinalMode of a meta.Reader.
+func metaReaderCounters(r anyReader) (in, out, nb, fm int64) {
+	v := reflect.ValueOf(r)
+	if v.Kind() == reflect.Ptr {
+		v = v.Elem()
+	}
+	if v.Kind() != reflect.Struct {
+		return
+	}
+	g := func(n string) int64 {
+		f := v.FieldByName(n)
+		if !f.IsValid() || !f.CanInt() {
+			return -1
+		}
+		return f.Int()
+	}
+	return g("InputOffset"), g("OutputOffset"), g("NumBlocks"), g("FinalMode")
+}
+
 func resetReader(typ string, r anyReader, src io.Reader, data []byte) error {
 	switch x := r.(type) {
 	case *xflate.Reader:
@@ -193,6 +212,23 @@ func execLife(o *Out, id, line string) {
 		var delivered []byte
 		sawEOF := false
 		closeCalled := false // a Close since creation / the last Reset
+		// meta.Reader also goes to its API-level model (kind mrm): per call bytes, class, counters, FinalMode
+		var res []string
+		closedNil := false // a Close returned nil since creation / the last Reset
+		tainted := false // the input ended or failed inside a block: InputOffset depends on the source kind
+		peek := srcKind != "byte" && srcKind != "bytefailend" && srcKind != "byteeof"
+		ctr := func() string {
+			in, out, nb, fm := metaReaderCounters(rd)
+			if peek && tainted {
+				return fmt.Sprintf("~:%d:%d:%d", out, nb, fm)
+			}
+			return fmt.Sprintf("%d:%d:%d:%d", in, out, nb, fm)
+		}
+		taint := func(e error) {
+			if e == io.ErrUnexpectedEOF || isInjected(e, etag) {
+				tainted = true
+			}
+		}
 		for _, op := range strings.Split(kv["ops"], "|") {
 			f := strings.Split(op, ":")
 			if rd == nil {
@@ -217,6 +253,12 @@ func execLife(o *Out, id, line string) {
 					return
 				}
 				trace = append(trace, fmt.Sprintf("R%d=%d,%s", n, k, errClass(e)))
+				if typ == "meta" {
+					if !closedNil {
+						taint(e)
+					}
+					res = append(res, fmt.Sprintf("R:%s:%s:%s", hx(buf[:max(k, 0)]), errClass(e), ctr()))
+				}
 				delivered = append(delivered, buf[:k]...)
 				if sticky && !closeCalled {
 					if k != 0 || e != stickyErr {
@@ -260,6 +302,10 @@ func execLife(o *Out, id, line string) {
 					return
 				}
 				trace = append(trace, "C="+errClass(e))
+				if typ == "meta" {
+					closedNil = closedNil || e == nil
+					res = append(res, fmt.Sprintf("C:%s:%s", errClass(e), ctr()))
+				}
 				closeCalledBefore := closeCalled
 				closeCalled = true
 				if closedOK && e != nil {
@@ -286,6 +332,10 @@ func execLife(o *Out, id, line string) {
 					return
 				}
 				trace = append(trace, "Z="+errClass(e))
+				if typ == "meta" {
+					tainted, closedNil = false, false
+					res = append(res, "Z:"+ctr())
+				}
 				sticky, closedOK, sawEOF, delivered, closeCalled = false, false, false, nil, false
 				if e != nil {
 					rd = nil
@@ -349,6 +399,10 @@ func execLife(o *Out, id, line string) {
 					return
 				}
 				trace = append(trace, f[0]+"="+errClass(e))
+				if typ == "meta" {
+					tainted, closedNil = false, false
+					res = append(res, f[0]+":"+ctr())
+				}
 				sticky, closedOK, sawEOF, delivered, closeCalled = false, false, false, nil, false
 				if e != nil {
 					rd = nil
@@ -362,6 +416,12 @@ func execLife(o *Out, id, line string) {
 					return
 				}
 				trace = append(trace, fmt.Sprintf("A=%d,%s", len(got), errClass(e)))
+				if typ == "meta" {
+					if !closedNil {
+						taint(e)
+					}
+					res = append(res, fmt.Sprintf("A:%s:%s:%s", hx(got), errClass(e), ctr()))
+				}
 				if !sticky && !closedOK && !closeCalled && fail < 0 {
 					fr, _ := newReaderOf(typ, mk(data), data)
 					var want []byte
@@ -393,6 +453,26 @@ func execLife(o *Out, id, line string) {
 			}
 		}
 		o.Emit(id, line, scn, res, typ+kv["ops"]+kv["streams"][:min(len(kv["streams"]), 40)]+kv["fail"])
+		if typ == "meta" && rd != nil {
+			failStr := "-"
+			switch srcKind {
+			case "failend", "bytefailend":
+				failStr = "end"
+			case "adv", "byte", "bufio16", "bufio17", "bufio4096", "readonly", "onebyte", "eofwith":
+				if fail >= 0 {
+					failStr = strconv.Itoa(fail)
+				}
+			}
+			io := "byte"
+			if peek {
+				io = "peek"
+			}
+			o.Count("lr-model-meta")
+			o.Emit(id, line, fmt.Sprintf("mrm id=%s io=%s streams=%s fail=%s etag=%d ops=%s", id, io, kv["streams"], failStr, etag, kv["ops"]),
+				strings.Join(res, "|"), typ+kv["ops"]+kv["streams"][:min(len(kv["streams"]), 40)]+kv["fail"]+srcKind)
+			return
+		}
+		o.Emit(id, line, "", strings.Join(trace, "|"), typ+kv["ops"]+kv["streams"][:min(len(kv["streams"]), 40)]+kv["fail"])
 	case "lxf": // xflate.Reader over a ReadSeeker that fragments its data (C10): same result as over bytes.Reader
 		data := unhx(kv["stream"])
 		var frags []int
